@@ -417,6 +417,10 @@ m("eu-period-current", "epc.upkeep", B+"altair/sync_aggregate.go", "if nextEpoch
 m("ev-pe-invalid-ok", "engine.verdict", B+"bellatrix/execution_payload.go", "\t} else if !valid {\n\t\treturn", "\t} else if valid {\n\t\treturn", "bellatrix.ProcessExecutionPayload.header-after-verdict")
 m("bs-lo-only", "bisect.step", F+"proto/proto_array.go", "pivot.Slot = min.Slot + ((max.Slot - min.Slot) / 2)", "pivot.Slot = min.Slot + ((max.Slot - min.Slot) / 4)", "XX")
 
+m("gv-early-accept", "gossip.verdict", "eth2/gossipval/voluntary_exit.go", "\t// REJECT] All of the conditions within process_voluntary_exit pass validation.\n", "\tif volExit.Message.Epoch == 0 {\n\t\treturn GossipValidatorResult{ACCEPT, nil}\n\t}\n", "ValidateVoluntaryExit.ACCEPT")
+m("gv-inverted-reject", "gossip.verdict", "eth2/gossipval/voluntary_exit.go", "\tif err := phase0.ValidateVoluntaryExit(exitVal.Spec(), epc, state, volExit); err != nil {\n\t\treturn GossipValidatorResult{REJECT, err}\n\t}\n", "\tif err := phase0.ValidateVoluntaryExit(exitVal.Spec(), epc, state, volExit); err == nil {\n\t\t_ = err\n\t} else {\n\t\treturn GossipValidatorResult{IGNORE, err}\n\t}\n", "ValidateVoluntaryExit.IGNORE")
+m("gv-seen-nested-reject", "gossip.verdict", "eth2/gossipval/voluntary_exit.go", "\tif exitVal.SeenExit(volExit.Message.ValidatorIndex) {\n\t\treturn GossipValidatorResult{IGNORE,", "\tif exitVal.SeenExit(volExit.Message.ValidatorIndex) {\n\t\treturn GossipValidatorResult{REJECT,", "ValidateVoluntaryExit.REJECT")
+
 # lazy.init / lock.atomic positive cases are today's known findings (no mutant needed: they are violations on the tree)
 
 M = [x for x in M if not x["expect"].startswith("XX")]
